@@ -743,8 +743,27 @@ func (sc *Scope) resolveType(text string) types.Type {
 	if text == "byte" {
 		return types.Typ[types.Uint8]
 	}
-	if text == "any" || text == "interface{}" {
+	if strings.HasPrefix(text, "map[") {
+		d := 0
+		for i := 3; i < len(text); i++ {
+			if text[i] == '[' {
+				d++
+			} else if text[i] == ']' {
+				d--
+				if d == 0 {
+					return types.NewMap(sc.resolveType(text[4:i]), sc.resolveType(text[i+1:]))
+				}
+			}
+		}
+	}
+	if text == "any" {
 		return types.Universe.Lookup("any").Type()
+	}
+	if text == "interface{}" {
+		// printed as written (type tags are keyed by the printed form, and go/types prints the universe type as "any")
+		it := types.NewInterfaceType(nil, nil)
+		it.Complete()
+		return it
 	}
 	if strings.HasSuffix(text, "]") {
 		// generic instance pkg.Name[T1,T2]: bracket matching the final one
